@@ -226,8 +226,13 @@ impl Prop for MetadataMismatch {
             _ => {}
         }
         // through Engine::load as well (files)
-        let t1 = TempVoice(write_temp(&c.base.to_bytes(), "c19a"));
-        let t2 = TempVoice(write_temp(&odd.to_bytes(), "c19b"));
+        // half of the cases: both files have the same file name, in different directories
+        let same_name = c.pick % 2 == 1;
+        let (t1, t2) = if same_name {
+            (TempVoice(crate::voice::write_temp_same_name(&c.base.to_bytes(), "c19a")), TempVoice(crate::voice::write_temp_same_name(&odd.to_bytes(), "c19b")))
+        } else {
+            (TempVoice(write_temp(&c.base.to_bytes(), "c19a")), TempVoice(write_temp(&odd.to_bytes(), "c19b")))
+        };
         let paths: Vec<_> = (0..c.nvoices).map(|i| if i == c.position { t2.0.clone() } else { t1.0.clone() }).collect();
         let e = Engine::load(&paths);
         ensure!(e.is_err() == differs, "engine-load-mismatch", "Engine::load returned {} for voices differing in {}", if e.is_ok() { "Ok" } else { "Err" }, c.field);
@@ -238,6 +243,7 @@ impl Prop for MetadataMismatch {
         let mut rep = Report::new();
         rep.nontrivial = differs;
         rep.class(format!("field:{}", c.field));
+        rep.class_if(same_name, "same-file-name-in-different-directories");
         Ok(rep)
     }
 }
